@@ -2138,3 +2138,45 @@ func ruleImportRecordWriters(e *Engine, r *Report) {
 	}
 	r.floor(rule, n, 1)
 }
+
+// ruleStreamCloseOnSuccess (C15, C14): closing the chunk writer flushes the
+// last block, writes the size/magic tail and sends the final chunk, which is
+// what makes the receiver validate and finalize the stream. It therefore
+// happens only when the state machine's Stream call succeeded; after any
+// error the sink is poisoned (or left to time out) instead - a writer closed
+// after a failed save produces a truncated stream that validates.
+func ruleStreamCloseOnSuccess(e *Engine, r *Report) {
+	rule := "GD-stream-close-on-success"
+	fn := r.need("(*dragonboat.snapshotter).Stream")
+	m := r.needMethod("internal/rsm", "IStreamable", "Stream")
+	if fn == nil || m == nil {
+		return
+	}
+	isStreamErr := func(v ssa.Value) bool {
+		v = stripChangeInterface(stripConv(v))
+		if c, ok := v.(*ssa.Call); ok {
+			return e.IsMethodCall(c, m)
+		}
+		return false
+	}
+	n := 0
+	for _, g := range e.regionOf(fn, 0) {
+		forEachCall(g, func(s ssa.CallInstruction) {
+			if _, isDefer := s.(*ssa.Defer); isDefer {
+				return
+			}
+			cc := s.Common()
+			if !cc.IsInvoke() || cc.Method.Name() != "Close" {
+				return
+			}
+			// the writer side (the compressor / chunk writer), not the sink
+			if named, ok := cc.Value.Type().(*types.Named); ok && named.Obj().Name() == "IChunkSink" {
+				return
+			}
+			n++
+			r.guard(rule, "writer Close in "+fname(g), s.(ssa.Instruction),
+				reqCmp("the state machine's Stream call returned no error", "==", isStreamErr, nilV()))
+		})
+	}
+	r.floor(rule, n, 1)
+}
